@@ -543,6 +543,11 @@ func (e *escaper) computeOutCtx(c context, t *template.Template) context {
 			err:   errorf(ErrOutputContext, t.Tree.Root, 0, "cannot compute output context for template %s", t.Name()),
 		}
 	}
+	if ok {
+		// Later calls of t in the same start context take the fast path out of
+		// escapeTree: remember the computed output context, not the assumed one.
+		e.output[t.Name()] = c1
+	}
 	return c1
 }
 
